@@ -287,6 +287,25 @@ func c14RunFetch(tmp string, c c14Case) *c14Result {
 	}
 }
 
+type c14Found struct {
+	c    c14Case
+	what string
+	n    int
+}
+
+// c14Simpler: shorter choice vector first, then lexicographic
+func c14Simpler(a, b []int) bool {
+	if len(a) != len(b) {
+		return len(a) < len(b)
+	}
+	for i := range a {
+		if a[i] != b[i] {
+			return a[i] < b[i]
+		}
+	}
+	return false
+}
+
 // c14ParExplorer: the depth-first enumeration of c14Explorer with subtrees handed to goroutines while slots are
 // free. Runs of this part spend their time in the 2 s idle poll of the fetcher under test, not on the CPU.
 type c14ParExplorer struct {
@@ -379,6 +398,14 @@ func TestVerifC14Fetch(t *testing.T) {
 
 	var mtx sync.Mutex
 	seen := map[uint64]struct{}{}
+	found := map[string]*c14Found{}
+	defer func() {
+		for key, f := range found {
+			for i := 0; i < f.n; i++ {
+				r.Violation(key, f.what, f.c)
+			}
+		}
+	}()
 	stop := false
 	visit := func(c c14Case, res *c14Result) bool {
 		mtx.Lock()
@@ -423,7 +450,16 @@ func TestVerifC14Fetch(t *testing.T) {
 				r.Cap("a failing case did not fail identically on re-execution (harness nondeterminism): " + key)
 				r.Note("unstable: " + fmt.Sprint(c))
 			} else {
-				r.Violation(key, what, c)
+				// subtrees run concurrently: report the simplest failing case per key, not the first one found
+				f := found[key]
+				if f == nil {
+					f = &c14Found{}
+					found[key] = f
+				}
+				f.n++
+				if f.n == 1 || c14Simpler(c.Choices, f.c.Choices) {
+					f.c, f.what = c, what
+				}
 			}
 			r.Outcome("violation")
 		} else {
@@ -449,7 +485,7 @@ func TestVerifC14Fetch(t *testing.T) {
 			{Scenario: "single2", L: 5, Kv: 3, Ka: 2},
 			{Scenario: "single", L: 6, Kv: 2, Ka: 2},
 			{Scenario: "heights", L: 6, Kv: 2, Ka: 2},
-			{Scenario: "shared", L: 5, Kv: 2, Ka: 2},
+			{Scenario: "three", L: 5, Kv: 2, Ka: 2},
 		}
 	}
 	total := int64(0)
